@@ -57,7 +57,7 @@ def run(ctx, env):
         # R9.3: data values
         encs = [(i, lp, cd, c) for i, (lp, cd, c) in enumerate(flat) if c[0] == "enc"]
         owners = [ex._loop_owner.get(x, (None, None)) for x in (encs[0][1] if encs else ())]
-        ok = len(encs) == 1 and encs[0][3][2].endswith("FieldValue::to_be_bytes") and (V9 + "Data", "fields") in owners and any(v == "Data" for (p, v) in encs[0][2])
+        ok = len(encs) == 1 and "::data_number::FieldValue::" in encs[0][3][2] and (V9 + "Data", "fields") in owners and any(v == "Data" for (p, v) in encs[0][2])
         ctx.ob("R9.3", V9 + "V9::to_be_bytes", "values-by-record-then-field", ok, "value emissions: %s" % [(e[1], e[3][1]) for e in encs])
         pads = [i for i, (lp, cd, c) in enumerate(flat) if c[0] == "bytes" and c[-1] == (V9 + "Data", "padding")]
         ctx.ob("R9.3", V9 + "V9::to_be_bytes", "padding-after-values", bool(pads) and bool(encs) and pads[0] > encs[0][0], "Data.padding emitted at position %s, values at %s" % (pads, [e[0] for e in encs]))
